@@ -251,7 +251,15 @@ pub fn write_file(r: &mut Rng, c: &mut Counters, style: &Style, version: &str, r
 /// `objstm_in(ri)`: whether revision `ri` may use object streams (when the style has them)
 pub fn write_file_with(r: &mut Rng, c: &mut Counters, style: &Style, version: &str, revisions: &[Revision], objstm_in: &dyn Fn(usize) -> bool) -> Written {
     let mut out: Vec<u8> = vec![];
-    if style.junk_before_header { out.extend_from_slice(*r.pick(&[&b"\xef\xbb\xbf"[..], b"junk line\n", b"\n\n", b"%!PS-Adobe\n"])); hit(c, "file.junk_before_header"); }
+    if style.junk_before_header {
+        // short prefixes, and every third time a LONG one around 1 KiB (readers that look for the header only in the first 1024 bytes
+        // and writers that do so when they re-base offsets disagree exactly there)
+        if r.chance(1, 3) {
+            let n = *r.pick(&[1019usize, 1020, 1023, 1024, 1025, 2048, 4999]);
+            let mut j = vec![b'#'; n - 1]; j.push(b'\n'); out.extend_from_slice(&j); hit(c, "file.junk_before_header.long");
+        } else { out.extend_from_slice(*r.pick(&[&b"\xef\xbb\xbf"[..], b"junk line\n", b"\n\n", b"%!PS-Adobe\n"])); }
+        hit(c, "file.junk_before_header");
+    }
     // offsets are relative to the start of the header (bytes before it do not count)
     let base = out.len();
     out.extend_from_slice(format!("%PDF-{}", version).as_bytes());
